@@ -528,4 +528,56 @@ theorem inv_run : ∀ (es : List Event) (st : St), Inv st → (∀ e ∈ es, Wel
     exact inv_run t (step st e) (inv_step h e (hw e List.mem_cons_self))
       (fun e' he' => hw e' (List.mem_cons_of_mem _ he'))
 
+/-! ### the live set is exactly what the start / failure events say -/
+
+/-- is node `r` alive after the events `es`, given whether it was alive before: the last
+start-up / failure event that names `r` decides -/
+def aliveAfter (r : Nat) : List Event → Bool → Bool
+  | [], b => b
+  | .nodeUp id :: t, b => aliveAfter r t (if id = r then true else b)
+  | .nodeDown id :: t, b => aliveAfter r t (if id = r then false else b)
+  | _ :: t, b => aliveAfter r t b
+
+theorem mem_live_step (st : St) (ev : Event) (r : Nat) :
+    r ∈ (step st ev).live ↔
+      match ev with
+      | .nodeUp id => r ∈ st.live ∨ r = id
+      | .nodeDown id => r ∈ st.live ∧ r ≠ id
+      | _ => r ∈ st.live := by
+  cases ev with
+  | nodeUp id => exact mem_insertLive st.live id r
+  | nodeDown id => exact mem_filter_ne st.live id r
+  | assignChanged db a => exact Iff.rfl
+  | dbCfg db => exact Iff.rfl
+  | dropDb db =>
+    unfold step
+    by_cases hc : st.dbs.contains db
+    · simp only [hc, ite_true]
+    · simp only [hc]; exact Iff.rfl
+
+theorem mem_live_run (r : Nat) : ∀ (es : List Event) (st : St),
+    r ∈ (run st es).live ↔ aliveAfter r es (decide (r ∈ st.live)) = true
+  | [], st => by simp [run, aliveAfter]
+  | ev :: t, st => by
+    have ih := mem_live_run r t (step st ev)
+    unfold run at ih ⊢
+    rw [List.foldl_cons, ih]
+    have hstep := mem_live_step st ev r
+    cases ev with
+    | nodeUp id =>
+      simp only [aliveAfter]
+      by_cases h : id = r
+      · subst h; simp [hstep]
+      · have h' : r ≠ id := fun e => h e.symm
+        simp [hstep, h, h']
+    | nodeDown id =>
+      simp only [aliveAfter]
+      by_cases h : id = r
+      · subst h; simp [hstep]
+      · have h' : r ≠ id := fun e => h e.symm
+        simp [hstep, h, h']
+    | assignChanged db a => simp only [aliveAfter]; simp [hstep]
+    | dbCfg db => simp only [aliveAfter]; simp [hstep]
+    | dropDb db => simp only [aliveAfter]; simp [hstep]
+
 end LinVerif.Lemmas.C18
